@@ -418,7 +418,13 @@ func (x *Exec) trBin(env *Env, e EBin) Val {
 	case "||":
 		return Val{T: Or(x.trBool(env, e.L), x.trBool(env, e.R)), Ty: tyBool}
 	case "==>":
-		return Val{T: Implies(x.trBool(env, e.L), x.trBool(env, e.R)), Ty: tyBool}
+		l := x.trBool(env, e.L)
+		// short-circuit: on a path where the antecedent is known to be false the
+		// consequent (which may mention locals not yet in scope) is not evaluated
+		if l.S == "false" || env.st.knows(Not(l)) {
+			return Val{T: True, Ty: tyBool}
+		}
+		return Val{T: Implies(l, x.trBool(env, e.R)), Ty: tyBool}
 	case "<==>":
 		return Val{T: Eq(x.trBool(env, e.L), x.trBool(env, e.R)), Ty: tyBool}
 	}
